@@ -1,14 +1,18 @@
 /-
   C11 — a DMR parses to exactly what it declares; the server-emitted DMR round-trips.
-  Property statements only; helper lemmas are in `Proofs/Dmr.lean`.
-  Carried by theorems: per-variable shape and dimension names for any mix of named and anonymous `Dim`s
-  (the decimal size text included), the attribute-type tables, the server's type tags.
-  NOT carried by a theorem (correspondence + oracle only, see design_notes/C11.md): the recursion over nested
-  groups (`get_variables`/`get_named_dimensions` prefixes), the split of fully qualified names into
-  path and name, and the assembly of the dataset tree.
+  Property statements only; helper lemmas are in `Proofs/Dmr.lean`, `Proofs/DmrParse.lean`, `Proofs/DmrServer.lean`.
+  `C11_parse` is the whole-document theorem (any group nesting, by structural induction over the spec tree);
+  `C11_shape`, `C11_dim_names`, `C11_attr_typed` are its per-variable / per-attribute lemmas, kept as statements
+  of their own.  `C11_addressable`: lookup by group path on the assembled tree.  `C11_server_roundtrip` is the server side.
+  Specs, their independent rendering and the expected records are in `PydapModel/DmrSpec.lean`.
+  Assembly of the dataset tree and `walk` are covered by `C10_decode_order` (Props/C10.lean).
 -/
 import PydapModel.Dmr
 import Proofs.Dmr
+import Proofs.DmrParse
+import Proofs.DmrServer
+import Proofs.DmrDemo
+import Proofs.DmrLookup
 namespace Pydap.C11
 open Pydap Pydap.Dmr
 
@@ -32,24 +36,41 @@ theorem C11_dim_names (tag : Str) (attrs : List (Str × Str)) (text : Option Str
   rw [filter_dims ds post hp]
   exact filterMap_names ds
 
-/-- **Attribute types, full statement**: every atomic attribute type is converted by `float()` or `int()`.
-    Refuted by the source tables as they stand: `Byte` is in none of the three lists. -/
-theorem C11_attr_types_refuted :
-    ¬ ∀ t ∈ atomicTypes, t ∈ floatTypes ∨ t ∈ intTypes ∨ t ∈ uintTypes := by decide
+/-- **Attribute types**: every atomic attribute type is dispatched to `float()` or `int()`: it is in one of the
+    three tables or it is `Byte`, which takes the `else` branch (`int()` since fix 78a1746, `ast.literal_eval` before) -/
+theorem C11_attr_types :
+    ∀ t ∈ atomicTypes, t ∈ floatTypes ∨ t ∈ intTypes ∨ t ∈ uintTypes ∨ t = "Byte".toList := by decide
 
-/-- … and holds for every atomic type other than `Byte` (in particular `UInt8 … UInt64`) -/
-theorem C11_attr_types_partial :
-    ∀ t ∈ atomicTypes, t ≠ "Byte".toList → t ∈ floatTypes ∨ t ∈ intTypes ∨ t ∈ uintTypes := by decide
+/-- **Attributes**: an attribute of any type, written in any mix of the three value syntaxes (inline `value=`,
+    `<Value>text</Value>`, `<Value value=…/>`) with any number of values, is read as its declared name and its
+    declared values in order: none → `None`, one → the value, several → the list; float types keep the text for
+    `float()`, every other atomic type gives the integer its decimal text denotes, all other types the string. -/
+theorem C11_attr_typed (a : SAttr) (h : a.ok) :
+    getAtomicAttr (renderAttr a) = .ok (some a.name, a.expected) :=
+  getAtomicAttr_render a h
 
-/-- the finding's witness on the model: `<Attribute name="flag" type="Byte"><Value>007</Value></Attribute>` -/
+/-- the former finding's witness `<Attribute name="flag" type="Byte"><Value>007</Value></Attribute>` is now 7 -/
 theorem C11_byte_attr_witness :
     getAtomicAttr (.mk "Attribute".toList [("name".toList, "flag".toList), ("type".toList, "Byte".toList)] none
-      [.mk "Value".toList [] (some "007".toList) []]) = .error .syntaxError := by rfl
+      [.mk "Value".toList [] (some "007".toList) []]) = .ok (some "flag".toList, .one (.int 7)) := by rfl
 
 /-- the same value under an unsigned type is the integer 7 -/
 theorem C11_uint_attr_typed :
     getAtomicAttr (.mk "Attribute".toList [("name".toList, "flag".toList), ("type".toList, "UInt8".toList)] none
       [.mk "Value".toList [] (some "007".toList) []]) = .ok (some "flag".toList, .one (.int 7)) := by rfl
+
+/-- **Whole document**: for every abstract spec — groups nested to any depth, declarations in any order
+    (dimensions, variables, attributes and groups interleaved), dimensions declared at any level, the same short
+    name in different groups — whose declarations are locally well formed (`Spec.ok`: plain names, variable tags,
+    attribute values matching their type, distinct attribute names per variable), whose `Dim` references name
+    declared dimensions, and in which no two variables and no two dimensions share a fully qualified name:
+    parsing the independently rendered document yields exactly one record per declared variable, in document
+    order, keyed by its group path, with the declared type, the shape resolved through the declarations the
+    `Dim`s name, the fully qualified dimension names, the maps and the attributes (`expectVars`). -/
+theorem C11_parse (pre : List (Str × Str)) (name : Str) (s : Spec)
+    (hok : s.ok) (hres : refsResolve s) (hv : distinctVars s) (hd : distinctDims s) :
+    parseVars (renderRoot pre name s) = .ok (expectVars s) :=
+  parseVars_render pre name s hok hres hv hd
 
 /-- numpy kind, `str(dtype)` and the parser's dtype string for the ten numeric types -/
 def numericDtypes : List (Char × String × String) :=
@@ -63,6 +84,47 @@ theorem C11_server_types :
     ∀ d ∈ numericDtypes, dmrTypeTag d.1 d.2.1.toList ∈ varTags ∧
       dap4ToNumpy (dmrTypeTag d.1 d.2.1.toList) = some d.2.2.toList := by decide
 
+/-- **Addressable by group path**: on the dataset `dmr_to_dataset` assembles from the document (groups created
+    first in `get_groups` order, then the variables stored under their keys) every declared variable is found
+    by following its group path and its name, and what is found is that variable's record — same short names in
+    different groups, variables declared before, between or after sibling groups included. -/
+theorem C11_addressable (pre : List (Str × Str)) (name : Str) (s : Spec)
+    (hok : s.ok) (hres : refsResolve s) (hn : distinctNodes s) (hd : distinctDims s) :
+    ∃ t, datasetTree (renderRoot pre name s) = .ok t ∧
+      ∀ pv ∈ specVars [] s, Forest.findVar (pv.1 ++ [pv.2.name]) t = some (expectVar pv.1 pv.2) :=
+  datasetTree_find pre name s hok hres hn hd
+
+/-- the parser's dtype string a served variable must come back with (the ten numeric types) -/
+def srvDtypeOf (kind : Char) (dtypeName : Str) : Str :=
+  match numericDtypes.find? (fun d => d.1 == kind && d.2.1.toList == dtypeName) with
+  | some d => d.2.2.toList
+  | none => []
+
+def srvDtype (v : SrvVar) : Str := srvDtypeOf v.kind v.dtypeName
+
+theorem C11_server_dtype_table : ∀ d ∈ numericDtypes, srvDtypeOf d.1 d.2.1.toList = d.2.2.toList := by decide
+
+/-- **Server round trip**: for every served dataset — groups nested to any depth, each with its own dimensions,
+    variables of the ten numeric types anywhere, variables and groups in any `children()` order — whose names are
+    plain, whose `var.dims` name declared dimensions of the extents of its data and whose fully qualified names are
+    distinct: parsing the DMR the server writes yields exactly the served variables, keyed by group path, each
+    with its own kind and width, its dimension names and the shape of its data. -/
+theorem C11_server_roundtrip (name : Str) (dims : List (Str × Nat)) (kids : SrvTree)
+    (hty : ∀ pv ∈ srvVars [] kids, ∃ d ∈ numericDtypes, pv.2.kind = d.1 ∧ pv.2.dtypeName = d.2.1.toList)
+    (hok : (dimsSpec dims (srvSpec kids)).ok) (hres : refsResolve (dimsSpec dims (srvSpec kids)))
+    (hv : distinctVars (dimsSpec dims (srvSpec kids))) (hd : distinctDims (dimsSpec dims (srvSpec kids))) :
+    parseVars (renderServer name dims kids) = .ok ((srvVars [] kids).map fun pv => srvExpect (srvDtype pv.2) pv.1 pv.2) := by
+  rw [parseVars_server name dims kids hok hres hv hd]
+  congr 1
+  apply List.map_congr_left
+  intro pv hpv
+  obtain ⟨d, hd', hk, hn⟩ := hty pv hpv
+  have h1 := (C11_server_types d hd').2
+  have h2 := C11_server_dtype_table d hd'
+  have e : srvDtype pv.2 = d.2.2.toList := by
+    rw [← h2]; simp only [srvDtype, hk, hn]
+  rw [e, hk, hn, h1]; rfl
+
 /-! ### non-vacuity -/
 
 example : ∀ d ∈ [SDim.named "/x".toList 3, .anon 5], ∀ fq s, d = .named fq s →
@@ -73,5 +135,13 @@ example : ∀ d ∈ [SDim.named "/x".toList 3, .anon 5], ∀ fq s, d = .named fq
   decide
 example : dictGet [("x".toList, (3 : Int))] (dimKey "/x".toList) = some 3 := by decide
 example : SDim.names [.named "/x".toList 3, .anon 5, .named "/g/y".toList 2] = ["x".toList, "/g/y".toList] := by decide
+
+example : parseVars (renderRoot [] "ds".toList demo) = .ok (expectVars demo) :=
+  C11_parse [] _ demo demo_ok demo_refs (by unfold distinctVars; decide) (by unfold distinctDims; decide)
+example : distinctNodes demo := by unfold distinctNodes; decide
+example : distinctVars demo ∧ distinctDims demo := by
+  constructor
+  · unfold distinctVars; decide
+  · unfold distinctDims; decide
 
 end Pydap.C11
